@@ -84,7 +84,7 @@ def effectTable : List FnRow := [
   ⟨[], [42, 44, 67, 69, 71, 136]⟩,  -- 70 astral.location.Location.twilight
   ⟨[], []⟩,  -- 71 astral.location.Location.tzinfo
   ⟨[], []⟩,  -- 72 astral.moon.<module>
-  ⟨[], []⟩,  -- 73 astral.moon._phase_asfloat
+  ⟨[], [26]⟩,  -- 73 astral.moon._phase_asfloat
   ⟨[], [28, 82, 94, 98]⟩,  -- 74 astral.moon.azimuth
   ⟨[], [28, 82, 94, 98]⟩,  -- 75 astral.moon.elevation
   ⟨[], []⟩,  -- 76 astral.moon.interpolate
